@@ -257,7 +257,10 @@ class Check(PropertyCheck):
                   "route_conn_matches_request (spec of the connection handed out, reuse included), transparent_dest_ignores_host "
                   "(Host vs destination), scheme_change_uses_other_connection; both confinement theorems also for histories in which "
                   "upstream_auth is changed at runtime between any two events (creds_confined_under_option_changes[_from_start], "
-                  "route_creds_confined_under_option_changes). Both models are tied end to end through the full layer "
+                  "route_creds_confined_under_option_changes); every one of these histories may contain server disconnects (`drop` events: "
+                  "the upstream side closes inside a tunnel or between tunnels and is re-established with a new CONNECT), and "
+                  "tunneled_for_the_whole_life_of_the_client_connection / server_disconnect_keeps_tunnel state that `tunneled` "
+                  "and the tunnel phase belong to the CLIENT connection and survive them. Both models are tied end to end through the full layer "
                   "stack with the real NextLayer, UpstreamAuth, Proxyserver (and TlsConfig) addons: per step the place, kind and "
                   "credential field of every request head written upstream (TLS sessions decrypted by an in-memory origin), the "
                   "client-side outcome, and — predicted, not taken from observation — flow.server_conn's address, tls, sni, via, its "
@@ -283,7 +286,9 @@ class Check(PropertyCheck):
     rule = ("history = upstream_auth set/unset x 1-2 client connections with a mode each (regular, upstream, reverse, "
             "transparent, socks5) x <=3 (quick) / <=5 steps per connection interleaved; step = plain absolute/origin-form "
             "request (two origins), CONNECT to :80 or :443 (then plain requests inside), or an absolute-form https-scheme "
-            "request (TLS to a fresh origin, decrypted by the in-memory peer). Exhaustive small scope first: every mode x auth x every step sequence of length <=3 on one "
+            "request (TLS to a fresh origin, decrypted by the in-memory peer); plus upstream-side disconnects (peer FIN on every "
+            "upstream connection of a client connection) and runtime changes of upstream_auth between any two steps, map_remote "
+            "rewriting http->https, and client replay (every running x recorded mode). Exhaustive small scope first: every mode x auth x every step sequence of length <=3 on one "
             "connection. distinct = distinct case; non-trivial = at least one write reached an upstream connection.")
     budget = {"quick": 1500, "thorough": 40000}
     time_budget = {"quick": 20, "thorough": 500}
@@ -376,6 +381,10 @@ class Check(PropertyCheck):
                 if st["k"] in ("c80", "c443"): seen_connect.add(st["c"])
                 elif st["k"] == "http" and is_proxy_mode(conns[st["c"]]) and st["c"] not in seen_connect and rng.chance(0.15):
                     st["k"] = "rw"
+            # the upstream side drops (server FIN / error / idle close) between requests, inside tunnels and between them
+            if rng.chance(0.35):
+                for _ in range(rng.randint(1, 2)):
+                    steps.insert(rng.randint(1, len(steps)), {"c": rng.randrange(nconn), "k": "drop"})
             # upstream_auth changed at runtime (unset -> set, set -> other credential, set -> unset) between any two steps
             if rng.chance(0.3):
                 for _ in range(rng.randint(1, 2)):
@@ -457,6 +466,14 @@ class Check(PropertyCheck):
                     outs.append({"client": [], "writes": [], "closed": False, "conns": [], "opt": True})
                     continue
                 cn = conns[st["c"]]
+                if st["k"] == "drop":       # every upstream connection of this client connection is closed by its peer (FIN)
+                    n = 0
+                    for lab in list(cn.w.server_labels()):
+                        if cn.w.peer_close(lab): n += 1
+                    cnew, writes = cn.delta()
+                    outs.append({"client": parse_statuses(cnew), "writes": self.scan(case, writes), "dropped": n,
+                                 "closed": cn.client not in cn.w.transports, "conns": cn.conn_delta()})
+                    continue
                 cn.w.recv("client", self.req_bytes(cn, st["k"], idx, case.get("pauth")))
                 cn.pump()
                 cnew, writes = cn.delta()
@@ -541,6 +558,7 @@ class Check(PropertyCheck):
         for idx, st in enumerate(case["steps"]):
             k = st["k"]
             if k == "opt": evs.append("A1" if st["auth"] else "A0")
+            elif k == "drop": evs.append(f"{st['c']}/drop")
             elif k in ("c80", "c443"): evs.append(f"{st['c']}/connect/{200 + idx}/{80 if k == 'c80' else 443}")
             else:
                 tls = k in ("https", "https2", "rw")
@@ -595,6 +613,9 @@ class Check(PropertyCheck):
                       (".tls" if w["tls"] else ""))
         body = "[" + "+".join(ws) + "]"
         sts = o["client"]
+        if st["k"] == "drop":
+            if sts == [] and not o["writes"]: return ("I" if o["closed"] else "N") + body
+            return f"?drop:{sts}:{o['closed']}" + body
         if sts == [299] and not o["closed"] and st["k"] not in ("c80", "c443"): return "R" + body
         if sts == [200] and not o["closed"] and st["k"] in ("c80", "c443"): return "T" + body
         if sts == [400] and o["closed"] and st["k"] in ("c80", "c443"): return "E" + body
@@ -631,6 +652,8 @@ class Check(PropertyCheck):
         for st, o in zip(case["steps"], obs["steps"]):
             if st["k"] == "opt":
                 out.append(f"upstream_auth:={st['auth']}"); continue
+            if st["k"] == "drop":
+                out.append(f"drop:{case['conns'][st['c']]['mode']}:{o.get('dropped', 0)}-closed"); continue
             mode = case["conns"][st["c"]]["mode"]
             for w in o["writes"]:
                 out.append(f"{mode}:{w['dest']}.{w['form']}{'.tls' if w['tls'] else ''}:" + ("cred" if w["creds"] else "nocred"))
